@@ -23,8 +23,14 @@ Definition cp_new (v : T) : cprop :=
 (* Read: commit.ref().Get() *)
 Definition cp_read (p : cprop) : T := ow_get (c_committed p).
 
-(* MarshalJSON: atomics.Value -> commitable -> overwritable -> value *)
-Definition cp_marshal (p : cprop) : T := o_value (c_committed p).
+(* pending(v): the overwritable the property will hold once a staged change is committed
+   (the committed one if nothing is staged) *)
+Definition cp_pending (p : cprop) : ow := match c_staged p with Some o => o | None => c_committed p end.
+
+(* MarshalJSON: pending(saved) -- the base value that is, or is about to be, saved.  A staged
+   value is written to the file before it is committed (UpdatePartialFromConfig: stage, verify,
+   persist, commit), so that an update whose write fails can still be refused. *)
+Definition cp_marshal (p : cprop) : T := o_value (cp_pending p).
 
 (* Every mutator returns the new state and the values handed to onChange.Fire. *)
 
@@ -33,18 +39,28 @@ Definition cp_overwrite (v : T) (p : cprop) : cprop * list T :=
   ({| c_committed := {| o_value := o_value (c_committed p); o_over := Some v |};
       c_staged := c_staged p |}, [v]).
 
-(* Stage: copy the committed overwritable, SetNoClear(newValue), commit.Stage(copy);
-   Fire(copy.Get()) -- the effective value (fix: C17/C19 listeners told the base) *)
+(* Stage: copy the committed overwritable, SetNoClear(newValue), commit.Stage(copy).
+   Nobody is told (fix C18: listeners used to be told here, before verification and commit). *)
 Definition cp_stage (nv : T) (p : cprop) : cprop * list T :=
   let o := {| o_value := nv; o_over := o_over (c_committed p) |} in
-  ({| c_committed := c_committed p; c_staged := Some o |}, [ow_get o]).
+  ({| c_committed := c_committed p; c_staged := Some o |}, []).
 
-(* CommitStaged *)
+(* CommitStaged: the staged overwritable becomes the committed one ... *)
 Definition cp_commit (p : cprop) : cprop :=
   match c_staged p with
   | Some o => {| c_committed := o; c_staged := None |}
   | None => p
   end.
+(* ... and Fire(staged.Get()) -- the effective value (fix C17/C19: listeners were told the base);
+   nothing staged, nothing fired *)
+Definition cp_commit_fires (p : cprop) : list T :=
+  match c_staged p with
+  | Some o => [ow_get o]
+  | None => []
+  end.
+
+(* DiscardStaged *)
+Definition cp_discard (p : cprop) : cprop := {| c_committed := c_committed p; c_staged := None |}.
 
 (* fine-grained API operations of one property *)
 Inductive fop := FOverwrite (v : T) | FStage (v : T) | FCommit.
@@ -53,7 +69,7 @@ Definition fstep (p : cprop) (op : fop) : cprop * list T :=
   match op with
   | FOverwrite v => cp_overwrite v p
   | FStage v => cp_stage v p
-  | FCommit => (cp_commit p, [])
+  | FCommit => (cp_commit p, cp_commit_fires p)
   end.
 
 (* run, collecting everything fired *)
@@ -139,7 +155,7 @@ Definition config := list (fkind * cprop fval).
 Definition bases (c : config) : list (fkind * fval) := map (fun kp => (fst kp, cp_marshal (snd kp))) c.
 Definition effective (c : config) : list (fkind * fval) := map (fun kp => (fst kp, cp_read (snd kp))) c.
 
-(* persist: json.Encode(cfg): every property writes its committed base value *)
+(* persist: json.Encode(cfg): every property writes its (pending) base value *)
 Definition persist (c : config) : list (fkind * str) :=
   map (fun kv => (fst kv, enc_field (fst kv) (snd kv))) (bases c).
 
